@@ -87,7 +87,8 @@ func VerifyProof(h hash.Hash, merkleRoot []byte, proofSet [][]byte, proofIndex u
 	// subtree of height 1, created above (and had an ending index of
 	// 'proofIndex').
 	stableEnd := proofIndex
-	for {
+	// a subtree of height 64 or more cannot be complete (numLeaves < 2^64), and 1 << 64 would be 0
+	for height < 64 {
 		// Determine if the subtree is complete. This is accomplished by
 		// rounding down the proofIndex to the nearest 1 << 'height', adding 1
 		// << 'height', and comparing the result to the number of leaves in the
